@@ -26,14 +26,15 @@ def is_opaque(x):
     return type(x).__name__.startswith('Stub_')
 
 
-def prefix_fold(f, init, xs, i):
-    """f(...f(f(init, xs[0]), xs[1])..., xs[i-1]): the state after the first i elements of xs.
+def prefix_fold(f, init, xs, i, *extra):
+    """f(...f(f(init, xs[0]), xs[1])..., xs[i-1]): the state after the first i elements of xs
+    (f is called as f(state, x, *extra)).
     In proofs this is a ghost history function with its defining equations instantiated at the
     indices the clauses mention (pyvc.models.m_prefix_fold); f must be a pure module-level function
     that does not mutate its arguments."""
     acc = init
     for j in range(i):
-        acc = f(acc, xs[j])
+        acc = f(acc, xs[j], *extra)
     return acc
 
 
